@@ -18,7 +18,7 @@ set_option linter.unusedSimpArgs false
 set_option linter.unusedVariables false
 
 namespace C18
-open US
+open US GoInt
 
 /-! ## 1. Facts regenerated from the source -/
 
